@@ -556,6 +556,88 @@ Proof.
     split; [|intro Hx; discriminate]. fold ps po. rewrite G. rewrite !perase_list. reflexivity.
 Qed.
 
+(* the same with the resulting node spelled out *)
+Lemma list_list_eq rec p fs xs chs fo xo cho :
+  OldZ (Comp CList fs xs chs) -> NewZ (Comp CList fo xo cho) ->
+  list_merge rec [] p (Comp CList fs xs chs) (Comp CList fo xo cho) =
+  Ok (if priority fs >? priority fo then (Comp CList (absorb fs fo) xs chs, Self) else (Comp CList (absorb fo fs) xo cho, Other)).
+Proof.
+  intros Hs Ho. set (s := Comp CList fs xs chs) in *. set (o := Comp CList fo xo cho) in *.
+  set (ps := priority fs). set (po := priority fo).
+  pose proof (OldZ_list_UO _ _ _ Hs) as Us. fold s ps in Us.
+  pose proof (NewZ_list_UO _ _ _ Ho) as Uo. fold o po in Uo.
+  assert (HFo : Forall (fun kc => UN po (snd kc)) cho) by (inversion Ho; subst; assumption).
+  assert (Edo : forall ch', delete (Comp CList fo xo ch') = true).
+  { intro ch'. inversion Ho as [| |f0 x0 ch0 [HO _] Hi _ _]; subst. unfold delete. cbn [nflags]. unfold OZ in HO. rewrite HO.
+    destruct (f_idel fo) as [[|]|]; [reflexivity|congruence|apply list_default_delete]. }
+  assert (HNN : forall ch', Forall (fun kc => NN (snd kc)) ch' -> NN (Comp CList fo xo ch')).
+  { intros ch' H. constructor; [apply NZ_allow_new, (NewZ_NZ _ Ho)|exact H]. }
+  unfold list_merge, o. cbn [is_listk negb andb]. fold o.
+  (* the pre-filter of the newer list *)
+  assert (Hkeep : forall q m, UN po m -> keep_if_exists s q m = if po =? ps then true else po >? ps).
+  { intros q m Hm. unfold keep_if_exists. rewrite (UN_delete _ _ Hm). cbn [negb orb]. rewrite hpo_prio.
+    rewrite (UN_prio _ _ Hm), (UO_prio _ _ (fnm_UO ps q s Us)). reflexivity. }
+  destruct (if po =? ps then true else po >? ps) eqn:Ege.
+  - (* the newer list is not outranked: it replaces the older one wholesale *)
+    assert (E1 : filter_nodes (keep_if_exists s) [] o = (o, [])).
+    { unfold o. rewrite filter_nodes_comp. cbv zeta.
+      assert (HA : filter_go (keep_if_exists s) [] cho = (map (fun kc => (fst kc, snd kc, true)) cho, [])).
+      { clear - HFo Hkeep. induction HFo as [|kc r Hkc Hr IHr]; cbn [filter_go]; [reflexivity|]. rewrite IHr.
+        unfold filter_child. rewrite (Hkeep _ _ Hkc). cbn [orb].
+        destruct (snd kc) as [lk lf lv|ck cf cx cch] eqn:Ekc; [cbn; rewrite <- Ekc; reflexivity|].
+        rewrite (filter_keep_P (UN po) (UN_children po) (fun f x ch H => match H with UNList _ _ _ _ _ _ _ _ HK => HK end)
+                   (fun k f x ch H => match H in UN _ n return match n with Comp k _ _ _ => k = CDict \/ k = CList | _ => True end with
+                                      | UNLeaf _ _ _ _ _ _ => I | UNDict _ _ _ _ _ _ _ _ _ => or_introl eq_refl | UNList _ _ _ _ _ _ _ _ _ => or_intror eq_refl end)
+                   (keep_if_exists s) Hkeep _ _ Hkc).
+        cbn. rewrite <- Ekc. reflexivity. }
+      rewrite HA. cbn [fst snd is_listk]. rewrite shift_kept_all_true. rewrite renum_enum; [reflexivity|]. inversion Ho; subst; assumption. }
+    rewrite E1. cbn [fst]. unfold comp_merge. unfold o. fold o. unfold prune.
+    assert (Edo' : delete o = true) by apply Edo. rewrite Edo'.
+    set (cond2 := fun (ap : path) (n : node) => has_priority_over n (first_not_missing o (skipn (length p) ap)) false).
+    assert (Hc2 : forall q m, UO ps m -> cond2 q m = false).
+    { intros q m Hm. unfold cond2. rewrite hpo_prio, (UO_prio _ _ Hm), (UO_prio _ _ (fnm_UO po _ o Uo)). fold ps po in Ege |- *.
+      destruct (po =? ps) eqn:E1'; [assert (ps =? po = true) as -> by lia; reflexivity|].
+      assert (ps =? po = false) as -> by lia. lia. }
+    pose proof (filter_none_P (UO ps) (UO_children ps) cond2 Hc2 s p Us) as Ef.
+    destruct (filter_nodes cond2 p s) as [s' removed]. cbn [fst] in Ef. subst s'. unfold s. cbn [clear_children children andb].
+    rewrite hpo_prio. unfold o. cbn [nflags]. fold o. fold ps po. rewrite Ege.
+    rewrite (require_all_new_NN o _ _ _ (NewZ_NN _ Ho)).
+    unfold replace_other, o. cbn [with_flags nflags maybe_promote ckind_eqb fst snd who_of].
+    assert (G : ps >? po = false).
+    { destruct (po =? ps) eqn:E1'; lia. }
+    fold ps po. rewrite G. reflexivity.
+  - (* the older list outranks the newer one: the newer elements are dropped by the pre-filter, the older list stays *)
+    assert (Hkeep' : forall q m, UN po m -> keep_if_exists s q m = false) by (intros q m Hm; now rewrite Hkeep).
+    assert (E1 : fst (filter_nodes (keep_if_exists s) [] o) = Comp CList fo xo []).
+    { unfold o. rewrite filter_nodes_comp. cbv zeta. cbn [fst is_listk].
+      assert (G : Forall (fun m => snd m = false) (fst (filter_go (keep_if_exists s) [] cho))).
+      { clear - HFo Hkeep'. induction HFo as [|kc r Hkc Hr IHr]; cbn [filter_go]; [constructor|].
+        assert (Efc : snd (fst (filter_child (filter_nodes (keep_if_exists s)) (keep_if_exists s) [] kc)) = false).
+        { unfold filter_child. rewrite (Hkeep' _ _ Hkc). cbn [orb].
+          destruct (snd kc) as [lk lf lv|ck cf cx cch] eqn:Ekc; [reflexivity|].
+          pose proof (filter_none_P (UN po) (UN_children po) (keep_if_exists s) Hkeep' _ ([] ++ [fst kc]) Hkc) as Hr'.
+          destruct (filter_nodes (keep_if_exists s) ([] ++ [fst kc]) (Comp ck cf cx cch)) as [c' rc]. cbn [fst snd] in *. subst c'. reflexivity. }
+        destruct (filter_child (filter_nodes (keep_if_exists s)) (keep_if_exists s) [] kc) as [[[kk c'] b] rm]. cbn [fst snd] in Efc. subst b.
+        destruct (filter_go (keep_if_exists s) [] r) as [rest rem_r]. cbn [fst snd] in *. constructor; auto. }
+      rewrite (shift_kept_all_false _ _ _ _ G). reflexivity. }
+    rewrite E1. set (o1 := Comp CList fo xo []).
+    assert (Uo1 : UO po o1) by (inversion Uo; subst; constructor; auto; cbn; auto).
+    unfold comp_merge. unfold o1. fold o1. unfold prune.
+    assert (Edo' : delete o1 = true) by apply Edo. rewrite Edo'.
+    set (cond2 := fun (ap : path) (n : node) => has_priority_over n (first_not_missing o1 (skipn (length p) ap)) false).
+    assert (G : ps >? po = true).
+    { destruct (po =? ps) eqn:E1'; [discriminate|]. lia. }
+    assert (Hc2 : forall q m, UO ps m -> cond2 q m = true).
+    { intros q m Hm. unfold cond2. rewrite hpo_prio, (UO_prio _ _ Hm), (UO_prio _ _ (fnm_UO po _ o1 Uo1)).
+      assert (ps =? po = false) as -> by lia. exact G. }
+    rewrite (filter_keep_P (UO ps) (UO_children ps) (UO_enum ps) (UO_kinds ps) cond2 Hc2 s p Us).
+    assert (Eh : has_priority_over o1 s true = false).
+    { rewrite hpo_prio. unfold o1, s. cbn [nflags]. fold ps po. destruct (po =? ps) eqn:E1'; [discriminate|exact Ege]. }
+    rewrite Eh, andb_false_r. cbn [fold_left bind]. rewrite Eh.
+    unfold replace_other, s, o1. cbn [with_flags nflags maybe_promote ckind_eqb fst snd who_of].
+    fold ps po. rewrite G. reflexivity.
+Qed.
+
 Lemma is_AL_perase_list f x ch : perase (Comp CList f x ch) = PPS (priority f) (AL (lch ch)).
 Proof. apply perase_list. Qed.
 
